@@ -10,11 +10,12 @@ fn walk_mix<M: NodeMon>(ctx: &Ctx, rep: &mut Report, mon: &mut M, quick: u64, th
     let corpus = corpus_positions();
     let is_miri = ctx.variant == Variant::Miri;
     let null_pm = mon.wants_null_moves();
+    let fl = mon.follows_library();
     let n = ctx.budget(quick, thorough, miri, san);
     ctx.cases(rep, "play", n, |gid, rng, rep| {
         let start = mixed_start(rng, gid, &corpus);
         let maxp = if is_miri { rng.range(2, 5) } else { rng.range(plies.0, plies.1) };
-        let cfg = WalkCfg { max_plies: maxp, null_per_mille: null_pm, stop_on_divergence: true };
+        let cfg = WalkCfg { max_plies: maxp, null_per_mille: null_pm, stop_on_divergence: true, follow_library: fl };
         let nodes = playout(&start, &cfg, rng, mon, rep);
         rep.add("ev_nodes", nodes as u64);
     });
@@ -30,7 +31,7 @@ fn walk_mix<M: NodeMon>(ctx: &Ctx, rep: &mut Report, mon: &mut M, quick: u64, th
             // keep trees bounded: deep only for small branching factors
             let bf = root.legal_moves().len();
             let d = if bf > 30 { tree_depth.saturating_sub(1).max(1) } else { tree_depth };
-            let nodes = tree(&Start::plain(root.clone(), "corpus"), d, rng, mon, rep);
+            let nodes = tree_opt(&Start::plain(root.clone(), "corpus"), d, fl, rng, mon, rep);
             rep.add("ev_tree_nodes", nodes as u64);
             rep.count("ev_trees");
         });
@@ -43,7 +44,7 @@ fn walk_mix<M: NodeMon>(ctx: &Ctx, rep: &mut Report, mon: &mut M, quick: u64, th
                 0 => synth::scenario_retry(rng, 9).unwrap_or_else(|| Start::plain(synth::synth(rng, Density::Crowded), "synth_dense")),
                 _ => Start::plain(synth::synth(rng, Density::Crowded), "synth_dense"),
             };
-            let cfg = WalkCfg { max_plies: 6, null_per_mille: null_pm, stop_on_divergence: true };
+            let cfg = WalkCfg { max_plies: 6, null_per_mille: null_pm, stop_on_divergence: true, follow_library: fl };
             let nodes = playout(&start, &cfg, rng, mon, rep);
             rep.add("ev_nodes", nodes as u64);
         });
@@ -84,7 +85,7 @@ pub fn run_c06(ctx: &Ctx, rep: &mut Report) {
         }
         for (fen, m) in [("rnbqkbnr/ppp1pppp/8/8/3p4/8/PPPPPPPP/RNBQKBNR w KQkq - 0 1", RMove::new(12, 28, 0)), ("rnbqkbnr/pppppppp/8/3P4/8/8/PPP1PPPP/RNBQKBNR b KQkq - 0 1", RMove::new(52, 36, 0))].iter() {
             let st = Start { pos: RPos::from_fen(fen).unwrap(), prelude: vec![*m], tag: "directed_ep" };
-            let cfg = WalkCfg { max_plies: 1, null_per_mille: 0, stop_on_divergence: true };
+            let cfg = WalkCfg { max_plies: 1, null_per_mille: 0, stop_on_divergence: true, follow_library: false };
             let mut mon = C06 {};
             playout(&st, &cfg, rng, &mut mon, rep);
         }
@@ -102,7 +103,7 @@ pub fn run_hash(ctx: &Ctx, rep: &mut Report, p8: bool, p9: bool) {
     let n = ctx.budget(1200, 20_000, 1, 100);
     ctx.cases(rep, "sparse", n, |_gid, rng, rep| {
         let start = if rng.chance(1, 2) { Start::plain(synth::synth(rng, Density::Sparse), "synth_sparse") } else { Start::plain(corpus[rng.below(corpus.len())].clone(), "corpus") };
-        let cfg = WalkCfg { max_plies: if is_miri { 3 } else { rng.range(40, 160) }, null_per_mille: 30, stop_on_divergence: true };
+        let cfg = WalkCfg { max_plies: if is_miri { 3 } else { rng.range(40, 160) }, null_per_mille: 30, stop_on_divergence: true, follow_library: false };
         let nodes = playout(&start, &cfg, rng, &mut mon, rep);
         rep.add("ev_nodes", nodes as u64);
     });
